@@ -671,6 +671,9 @@ func (d *mkDest) serve(c *net.TCPConn) {
 		if n > 0 {
 			v.feed(buf[:n])
 		}
+		if v.n > c2s+(1<<16) {
+			break
+		}
 		if err != nil {
 			if errors.Is(err, io.EOF) {
 				upd(func(s *mkServerSide) { s.SawEOF = true })
@@ -697,6 +700,8 @@ type mkTunnelPlan struct {
 	S2C     int64  `json:"s2c"`
 	Mode    int    `json:"mode"`
 	Chunk   int    `json:"chunk"` // client write size
+	// ReadBuf: size of the buffer the client passes to Read (0 = 32 KiB)
+	ReadBuf int `json:"read_buf,omitempty"`
 	// ReaderStallMs: the client does not read for this long after the open (builds backpressure
 	// towards the exit).
 	ReaderStallMs int `json:"reader_stall_ms,omitempty"`
@@ -804,6 +809,9 @@ func mkRunTunnel(m *mkMesh, p mkTunnelPlan, watchdog time.Duration) *mkClientSid
 	}()
 	v := newMkVerifier(p.ID, 1)
 	buf := make([]byte, 32*1024)
+	if p.ReadBuf > 0 {
+		buf = make([]byte, p.ReadBuf)
+	}
 	if p.ReaderStallMs > 0 {
 		time.Sleep(time.Duration(p.ReaderStallMs) * time.Millisecond)
 	}
@@ -814,6 +822,9 @@ func mkRunTunnel(m *mkMesh, p mkTunnelPlan, watchdog time.Duration) *mkClientSid
 		n, err := conn.Read(buf)
 		if n > 0 {
 			v.feed(buf[:n])
+		}
+		if v.n > p.S2C+(1<<16) {
+			break // far more bytes than were ever sent: stop, the oracle reports extra bytes
 		}
 		if err != nil {
 			if errors.Is(err, io.EOF) {
